@@ -34,7 +34,9 @@ Record mstate := {
   ms_calls : list (N * N);
   ms_fuzzy_bytes : bool; ms_fuzzy_calls : bool;
   ms_offered : N; ms_maxq : N;
-  ms_log : option (N * N * N) }.             (* the accepted dirty log: file, window offset, window length *)
+  ms_log : option (N * N * N);
+  ms_pf : N;                               (* protocol features acknowledged by the last successful SET_PROTOCOL_FEATURES *)
+  ms_beq : option N }.                     (* ... as they were when the backend-request channel was attached *)             (* the accepted dirty log: file, window offset, window length *)
 
 Definition sbyte (s : mstate) (f off : N) : N :=
   match find (fun t => (fst (fst t) =? f) && (snd (fst t) =? off)) (ms_bytes s) with Some t => snd t | None => 0 end.
@@ -49,23 +51,23 @@ Fixpoint mupd {A} (l : list A) (i : nat) (x : A) : list A :=
 Definition set_table (s : mstate) (t : list (list N)) : mstate :=
   {| ms_table := t; ms_changes := ms_changes s + 1; ms_bytes := ms_bytes s; ms_rings := ms_rings s; ms_acked := ms_acked s;
      ms_evidx := ms_evidx s; ms_calls := ms_calls s; ms_fuzzy_bytes := ms_fuzzy_bytes s; ms_fuzzy_calls := ms_fuzzy_calls s;
-     ms_offered := ms_offered s; ms_maxq := ms_maxq s; ms_log := ms_log s |}.
+     ms_offered := ms_offered s; ms_maxq := ms_maxq s; ms_log := ms_log s; ms_pf := ms_pf s; ms_beq := ms_beq s |}.
 Definition set_bytes (s : mstate) (b : list (N * N * N)) (fuzzy : bool) : mstate :=
   {| ms_table := ms_table s; ms_changes := ms_changes s; ms_bytes := b; ms_rings := ms_rings s; ms_acked := ms_acked s;
      ms_evidx := ms_evidx s; ms_calls := ms_calls s; ms_fuzzy_bytes := fuzzy; ms_fuzzy_calls := ms_fuzzy_calls s;
-     ms_offered := ms_offered s; ms_maxq := ms_maxq s; ms_log := ms_log s |}.
+     ms_offered := ms_offered s; ms_maxq := ms_maxq s; ms_log := ms_log s; ms_pf := ms_pf s; ms_beq := ms_beq s |}.
 Definition set_mrings (s : mstate) (r : list mring) : mstate :=
   {| ms_table := ms_table s; ms_changes := ms_changes s; ms_bytes := ms_bytes s; ms_rings := r; ms_acked := ms_acked s;
      ms_evidx := ms_evidx s; ms_calls := ms_calls s; ms_fuzzy_bytes := ms_fuzzy_bytes s; ms_fuzzy_calls := ms_fuzzy_calls s;
-     ms_offered := ms_offered s; ms_maxq := ms_maxq s; ms_log := ms_log s |}.
+     ms_offered := ms_offered s; ms_maxq := ms_maxq s; ms_log := ms_log s; ms_pf := ms_pf s; ms_beq := ms_beq s |}.
 Definition set_feat (s : mstate) (acked : list N) (ev : N) : mstate :=
   {| ms_table := ms_table s; ms_changes := ms_changes s; ms_bytes := ms_bytes s; ms_rings := ms_rings s; ms_acked := acked;
      ms_evidx := ev; ms_calls := ms_calls s; ms_fuzzy_bytes := ms_fuzzy_bytes s; ms_fuzzy_calls := ms_fuzzy_calls s;
-     ms_offered := ms_offered s; ms_maxq := ms_maxq s; ms_log := ms_log s |}.
+     ms_offered := ms_offered s; ms_maxq := ms_maxq s; ms_log := ms_log s; ms_pf := ms_pf s; ms_beq := ms_beq s |}.
 Definition set_calls (s : mstate) (c : list (N * N)) (fuzzy : bool) : mstate :=
   {| ms_table := ms_table s; ms_changes := ms_changes s; ms_bytes := ms_bytes s; ms_rings := ms_rings s; ms_acked := ms_acked s;
      ms_evidx := ms_evidx s; ms_calls := c; ms_fuzzy_bytes := ms_fuzzy_bytes s; ms_fuzzy_calls := fuzzy;
-     ms_offered := ms_offered s; ms_maxq := ms_maxq s; ms_log := ms_log s |}.
+     ms_offered := ms_offered s; ms_maxq := ms_maxq s; ms_log := ms_log s; ms_pf := ms_pf s; ms_beq := ms_beq s |}.
 
 (* ---- the table as the property describes it ---- *)
 Definition in_guest (r : list N) (a : N) : bool := (g_gpa r <=? a) && (a <? g_gpa r + g_size r).
@@ -145,7 +147,7 @@ Definition obs_pairs (l : list val) : option (list (N * N)) :=
 Definition set_log (s : mstate) (l : option (N * N * N)) : mstate :=
   {| ms_table := ms_table s; ms_changes := ms_changes s; ms_bytes := ms_bytes s; ms_rings := ms_rings s; ms_acked := ms_acked s;
      ms_evidx := ms_evidx s; ms_calls := ms_calls s; ms_fuzzy_bytes := ms_fuzzy_bytes s; ms_fuzzy_calls := ms_fuzzy_calls s;
-     ms_offered := ms_offered s; ms_maxq := ms_maxq s; ms_log := l |}.
+     ms_offered := ms_offered s; ms_maxq := ms_maxq s; ms_log := l; ms_pf := ms_pf s; ms_beq := ms_beq s |}.
 Definition page_aligned (r : list N) : bool := (g_gpa r mod 4096 =? 0) && (g_size r mod 4096 =? 0).
 Definition get_b (l : list (N * N * N)) (f off : N) : N :=
   match find (fun t => (fst (fst t) =? f) && (snd (fst t) =? off)) l with Some t => snd t | None => 0 end.
@@ -395,6 +397,28 @@ Definition mstep (s : mstate) (kind : string) (a : list N) (data : list N) (rl :
       then (0, set_log s (Some (arg 2%nat, arg 1%nat, q)))
       else (15, s)
     else (0, s)
+  else if String.eqb kind "set_protocol_features" then
+    (0, if ok then {| ms_table := ms_table s; ms_changes := ms_changes s; ms_bytes := ms_bytes s; ms_rings := ms_rings s; ms_acked := ms_acked s;
+                      ms_evidx := ms_evidx s; ms_calls := ms_calls s; ms_fuzzy_bytes := ms_fuzzy_bytes s; ms_fuzzy_calls := ms_fuzzy_calls s;
+                      ms_offered := ms_offered s; ms_maxq := ms_maxq s; ms_log := ms_log s; ms_pf := q; ms_beq := ms_beq s |} else s)
+  else if String.eqb kind "set_backend_req" then
+    (0, if ok then {| ms_table := ms_table s; ms_changes := ms_changes s; ms_bytes := ms_bytes s; ms_rings := ms_rings s; ms_acked := ms_acked s;
+                      ms_evidx := ms_evidx s; ms_calls := ms_calls s; ms_fuzzy_bytes := ms_fuzzy_bytes s; ms_fuzzy_calls := ms_fuzzy_calls s;
+                      ms_offered := ms_offered s; ms_maxq := ms_maxq s; ms_log := ms_log s; ms_pf := ms_pf s; ms_beq := Some (ms_pf s) |} else s)
+  else if String.eqb kind "proxy_probe" then
+    (* a newly attached backend-request channel inherits the negotiated reply-ack, shared-object and shared-memory
+       settings: an operation whose feature was negotiated is sent (asking for an acknowledgement iff REPLY_ACK was),
+       one whose feature was not is refused *)
+    match ms_beq s with
+    | None => (0, s)
+    | Some pf =>
+        let want_feature := if q =? 0 then hasb pf PF_SHARED_OBJECT else hasb pf PF_SHMEM in
+        match res with
+        | VS "refused" => ((if want_feature then 14 else 0), s)
+        | VL [VS "sent"; VN nr] => ((if want_feature && (nr =? (if hasb pf PF_REPLY_ACK then 1 else 0)) then 0 else 14), s)
+        | _ => (14, s)
+        end
+    end
   else if String.eqb kind "panics" then
     match res with VN 0 => (0, s) | _ => (5, s) end              (* C05: nothing on the backend side panicked *)
   else if String.eqb kind "set_features" then
@@ -423,4 +447,4 @@ Definition minit (nq maxq offered : N) : mstate :=
   {| ms_table := []; ms_changes := 0; ms_bytes := [];
      ms_rings := repeat {| mr_size := maxq; mr_next_avail := 0; mr_next_used := Some 0; mr_addrs := Some (0, 0, 0); mr_call := Some None |} (N.to_nat nq);
      ms_acked := []; ms_evidx := 0; ms_calls := []; ms_fuzzy_bytes := false; ms_fuzzy_calls := false;
-     ms_offered := offered; ms_maxq := maxq; ms_log := None |}.
+     ms_offered := offered; ms_maxq := maxq; ms_log := None; ms_pf := 0; ms_beq := None |}.
